@@ -119,6 +119,33 @@ def run(ctx):
                             if cc.name in relay_calls or cc.target.endswith("spawn::spawn"):
                                 bad.append(cc.name)
                     ctx.ob("D3", fb.root, f"{c.method}-failure-drops-inbound", loc(t["sp"]), not bad, "failure edge reaches the function end without relaying" if not bad else f"failure edge still reaches {sorted(set(bad))}")
+    # ---------------- D5 a Sink that defers what start_send accepted must emit it when it is closed -------------------------------
+    # forward() closes a sink without flushing it when its source ends: whatever start_send only buffered is lost with a clean close
+    sinks = {}
+    for b in bodies:
+        if b.impl_trait and last_seg(b.impl_trait) == "Sink" and b.root == b.defp and b.method in ("start_send", "poll_flush", "poll_close", "poll_ready"):
+            sinks.setdefault(b.impl_self_def, {})[b.method] = b
+    ctx.floor("D5", "repo-defined Sink impls", 1, len(sinks))
+    for ty, ms in sorted(sinks.items()):
+        if "start_send" not in ms or "poll_close" not in ms:
+            continue
+
+        def hands_on(body):
+            fb_ = prog.flat(body.defp)
+            return any(c.method in ("start_send", "start_send_unpin", "poll_write", "write_all", "poll_write_vectored") and fb_.origin[blk] != ms["start_send"].defp or
+                       (c.method in ("start_send", "start_send_unpin", "poll_write") and c.target != ms["start_send"].defp)
+                       for (blk, c, t) in fb_.calls())
+        direct = hands_on(ms["start_send"])
+        if direct:
+            ctx.ob("D5", ms["start_send"].defp, "accepted-items-reach-the-transport", loc(ms["start_send"].sp), True,
+                   "start_send hands every item to the inner sink at once: nothing is pending when the sink is closed", ordinal=False)
+            continue
+        ok = hands_on(ms["poll_close"]) or any(c.target == ms.get("poll_flush", ms["poll_close"]).defp for (_, c, _) in prog.flat(ms["poll_close"].defp).calls() if "poll_flush" in ms)
+        ctx.ob("D5", ms["poll_close"].defp, "close-emits-what-start_send-buffered", loc(ms["poll_close"].sp), ok,
+               "poll_close emits (or flushes) what start_send buffered" if ok else
+               "start_send only buffers the item and poll_close never emits the buffer: a pump that ends with a clean close (forward() closes without flushing) "
+               "drops the closing side's last chunk, the peer sees a clean end-of-stream with data missing", ordinal=False)
+
     # ---------------- D4 -----------------------------------------------------------------------------
     holders = []
     for it in prog.items:
